@@ -27,7 +27,7 @@ PROPS = {
         floor={'quick': 300, 'thorough': 5000},
         level_text=('Thousands of edit steps on real sources are compared node by node with a fresh parse; held on the histories executed. '
                     'The thorough tier also runs the workload inside an AddressSanitizer build, one process per language (DESIGN.md §9.7).'),
-        level_note='Trusted: tree-sitter produces the same tree for a correct InputEdit as for a fresh parse when the text is error-free (measured: silent on >10k steps after the fix of the duplicate tree.edit).',
+        level_note='Not trusted blindly: tree-sitter itself does not always produce the fresh-parse tree for a correct InputEdit (external scanners: Bash, Python). Every history is therefore replayed through raw tree-sitter with an independently computed InputEdit; a divergence that the raw replay reproduces exactly is the known finding C10/tree-sitter-incremental-reparse, any other divergence is a fresh violation.',
         assumptions=['only steps whose resulting text parses without ERROR/MISSING nodes are compared (statement)'],
     ),
     'C20': dict(
